@@ -1147,7 +1147,8 @@ class RZILTransformer(Transformer):
         If the hybrid is a sub-routine with a return type of void, this returns the hybrid.
         """
         if hybrid.value_type.group & VTGroup.VOID:
-            return hybrid
+            # Hybrids in the arguments ("trap(fcn(x), 1)") are executed before it.
+            return self.chk_hybrid_dep(hybrid)
 
         tmp_x_name = f"{self.hybrid_tmp_prefix}h_tmp{self.il_ops_holder.hybrid_op_count}"
         self.il_ops_holder.hybrid_op_count += 1
